@@ -90,7 +90,25 @@ def _dt(rng, ctx):
     return datetime.datetime(rng.randint(1990, 2030), rng.randint(1, 12),
                              rng.randint(1, 28), rng.randint(0, 23),
                              rng.randint(0, 59), rng.randint(0, 59),
-                             rng.choice((0, 0, rng.randint(0, 999999))))
+                             rng.choice((0, 0, 1, 999999, 999998, 500000, rng.randint(0, 999999))))
+
+
+def _btext(rng, ctx):
+    """Text whose tokens carry boosts ("alfa^2 bravo alfa^0.5"), with repeated words."""
+    words = [rng.choice(ctx["vocab"][:5]) for _ in range(rng.randint(1, 7))]
+    return u" ".join(w + (u"^%s" % rng.choice((2, 0.5, 3, 1.5)) if rng.random() < 0.5 else u"") for w in words)
+
+
+def _boost_analyzer():
+    from whoosh import analysis
+    return analysis.RegexTokenizer(r"\S+") | analysis.DelimitedAttributeFilter(delimiter="^", attribute="boost", default=1.0, type=float)
+
+
+def _posboost_field():
+    from whoosh import fields, formats
+    f = fields.TEXT(analyzer=_boost_analyzer())
+    f.format = formats.PositionBoosts(field_boost=f.format.field_boost)
+    return f
 
 
 def zoo():
@@ -107,6 +125,10 @@ def zoo():
           tags=("text", "pos", "chars", "vector", "scorable"), weight=0.5),
         F("tb", lambda: fields.TEXT(phrase=False, field_boost=2.5), _text,
           tags=("text", "scorable", "fboost"), weight=0.3),
+        # per-token boosts (a DelimitedAttributeFilter sets them) under the Positions and the
+        # PositionBoosts formats: the posting weight is the SUM of the boosts of the occurrences
+        F("tx", lambda: fields.TEXT(analyzer=_boost_analyzer()), _btext, tags=("text", "pos", "scorable", "tokboost"), weight=0.0),
+        F("txb", _posboost_field, _btext, tags=("text", "pos", "scorable", "tokboost"), weight=0.0),
         F("tv", lambda: fields.TEXT(stored=True, vector=True), _text,
           tags=("text", "pos", "vector", "scorable"), weight=0.3),
         F("kw", lambda: fields.KEYWORD(stored=True, commas=True, scorable=True, lowercase=True),
@@ -169,10 +191,9 @@ def zoo():
           tags=("col",), weight=0.0),
         F("cst", lambda: fields.COLUMN(columns.StructColumn("<iH", (0, 0))),
           lambda r, c: (r.randint(-10 ** 6, 10 ** 6), r.randint(0, 65535)), tags=("col",), weight=0.0),
-        # features known to be broken on the pinned tree (DESIGN 10/6h) keep a
-        # small non-zero weight
+        # sortable DATETIME (reading its column for a document without a date used to raise; fixed by 24b75df)
         F("dts", lambda: fields.DATETIME(stored=True, sortable=True), _dt,
-          tags=("date", "column", "sortable", "kf_datetime_column"), weight=0.0),
+          tags=("date", "column", "sortable"), weight=0.0),
     ]
 
 
@@ -206,6 +227,12 @@ class RunConfig(object):
         # buffer of the per-document CompoundWriter sub-streams (32 KB in the library): small
         # values make ordinary segments cross the spill path that otherwise needs >64 KB columns
         self.cbuf = rng.choice((32768, 32768, 4096, 512, 64))
+        # rows above which a VarBytesColumn also writes an offsets table (2**15 in the library: "mostly
+        # for testing"): small values make ordinary segments cross the offsets path
+        self.offcut = rng.choice((32768, 32768, 2, 9))
+        # how many document numbers ArrayUnionMatcher (Or of >= 3 clauses on small segments) scores
+        # at a time (2048 in the library): small values make small segments span several parts
+        self.aupart = rng.choice((2048, 2048, 4, 16, 64))
         for kk, vv in force.items():
             setattr(self, kk, vv)
 
@@ -236,6 +263,8 @@ class RunConfig(object):
                 "compression": self.compression, "limitmb": self.limitmb,
                 "inlinelimit": getattr(self, "inlinelimit", 1),
                 "cbuf": getattr(self, "cbuf", 32768),
+                "offcut": getattr(self, "offcut", 32768),
+                "aupart": getattr(self, "aupart", 2048),
                 "long_text_p": self.long_text_p}
 
 
